@@ -89,7 +89,7 @@ type Case struct {
 	RevB   bool
 	DX, DY int64 // translation of B in 1/1000 units
 	Affine int   // 0: none; k>0: both operands are mapped by the k-th affine map (non-representable coefficients)
-	Close  int   `json:",omitempty"` // ring spelling of both operands: 0 all unclosed, 1 all closed, 2 first ring of each polygon closed and the others not, 3 the reverse
+	Close  int   `json:",omitempty"` // ring spelling of both operands: 0 all unclosed, 1 all closed, 2 first ring of each polygon closed and the others not, 3 the reverse, 4 unclosed with the rings of each polygon in the opposite order (holes first)
 	Tier   string
 }
 
@@ -302,7 +302,16 @@ func runCase(c Case, cat []shp) {
 		pts = append(pts, tp{exact.FPt{X: qx, Y: qy}, ia, ib})
 	}
 	ga, gb := toGeomA(sa, c.RevA, 0, 0, c.Affine), toGeomA(sb, c.RevB, c.DX, c.DY, c.Affine)
-	if c.Close > 0 {
+	if c.Close == 4 {
+		// the rings of every polygon in the opposite order (holes before their shell)
+		for _, mp := range []geom.MultiPolygon{ga, gb} {
+			for _, pg := range mp {
+				for i, j := 0, len(pg)-1; i < j; i, j = i+1, j-1 {
+					pg[i], pg[j] = pg[j], pg[i]
+				}
+			}
+		}
+	} else if c.Close > 0 {
 		for _, mp := range []geom.MultiPolygon{ga, gb} {
 			for _, pg := range mp {
 				for ri := range pg {
@@ -469,7 +478,7 @@ func main() {
 		return
 	}
 	rep = report.New("C01", tier, "model_checking")
-	rep.Rule = "E1: operand catalogue (9 (36) axis-aligned boxes, 2 triangles, L, C, pentagon, box with 1 and 2 holes, two disjoint boxes, box + box-with-hole, island inside a hole, box with a U-shaped hole, a 64-gon, a 100-gon with a 65-gon hole) in both windings for A and B (operands with holes also with closed rings and with closed and unclosed rings mixed in one polygon), B translated by every vector of a 4x4 (8x8) odd-integer grid + (0.37,0.41), every receiver/argument cast {Polygon, MultiPolygon, *Bounds} x {Intersection, Union, Difference, XOr}; a third of the pairs again with both operands cut from flat vertex buffers (same areas, buffers not written, earlier results intact after later operations); the catalogue pairs again under 3 affine maps with non-representable coefficients (rotation by 30 deg, shear+scale, reflection) and 2 exact scalings (2^-20, 2^30; areas scale by |det|, references on the integer pre-images); pairs not in general position (exact integer test) are skipped and counted. Oracle: even-odd membership of ~2400 lattice points with an exactly verified 0.05 margin must equal the boolean combination; region area of the result (slab decomposition) must equal the slab-decomposition area of the true region (rel 1e-9); rings closed for Polygon/MultiPolygon receivers; empty result only if the true area is 0. Non-trivial = operand pairs that cross or nest."
+	rep.Rule = "E1: operand catalogue (9 (36) axis-aligned boxes, 2 triangles, L, C, pentagon, box with 1 and 2 holes, two disjoint boxes, box + box-with-hole, island inside a hole, box with a U-shaped hole, a 64-gon, a 100-gon with a 65-gon hole) in both windings for A and B (operands with holes also with closed rings and with closed and unclosed rings mixed in one polygon, and with the holes listed before their shell), B translated by every vector of a 4x4 (8x8) odd-integer grid + (0.37,0.41), every receiver/argument cast {Polygon, MultiPolygon, *Bounds} x {Intersection, Union, Difference, XOr}; a third of the pairs again with both operands cut from flat vertex buffers (same areas, buffers not written, earlier results intact after later operations); the catalogue pairs again under 3 affine maps with non-representable coefficients (rotation by 30 deg, shear+scale, reflection) and 2 exact scalings (2^-20, 2^30; areas scale by |det|, references on the integer pre-images); pairs not in general position (exact integer test) are skipped and counted. Oracle: even-odd membership of ~2400 lattice points with an exactly verified 0.05 margin must equal the boolean combination; region area of the result (slab decomposition) must equal the slab-decomposition area of the true region (rel 1e-9); rings closed for Polygon/MultiPolygon receivers; empty result only if the true area is 0. Non-trivial = operand pairs that cross or nest."
 	cat := catalogue(tier)
 	offs := []int64{-7, -3, 1, 5}
 	if tier == "thorough" {
@@ -488,7 +497,7 @@ func main() {
 							cases = append(cases, Case{A: a, B: b, RevA: ra, RevB: rb, DX: dx*scale + 370, DY: dy*scale + 410, Tier: tier})
 							if (len(cat[a].Polys[0]) > 1 || len(cat[b].Polys[0]) > 1 || len(cat[a].Polys) > 1 && len(cat[a].Polys[1]) > 1) && (tier == "thorough" || (dx+dy+int64(a))%3 == 0) {
 								// operands with holes: the closed and the two mixed ring spellings
-								cl := 1 + (int(dx+dy)+a+b)%3
+								cl := 1 + (int(dx+dy)+a+b)%4
 								cases = append(cases, Case{A: a, B: b, RevA: ra, RevB: rb, DX: dx*scale + 370, DY: dy*scale + 410, Tier: tier, Close: cl})
 							}
 						}
